@@ -97,6 +97,7 @@ type PathState struct {
 	hashPending map[string][]hashApp // concrete points not yet asserted, per UF name
 	hashSymSeen map[string]bool
 	learned    map[*Term]interval
+	sigs       map[*Term]*sigProv
 	rangeCache map[*Term]interval
 }
 
